@@ -51,7 +51,7 @@ type nodeMon struct {
 	sentPP   map[hv]string
 	sentP    map[hv]string
 	sentC    map[hv]string
-	lastVC   map[uint64]int64
+	lastVC   map[uint64]uint64
 	storedVC map[hv]map[string]*interfaces.ViewChangeMessage // votes the node counted (StoreViewChange ok)
 	// C13
 	lastCommitH  int64
@@ -62,7 +62,7 @@ type nodeMon struct {
 
 func newNodeMon() *nodeMon {
 	return &nodeMon{proposals: map[hvh]bool{}, validNV: map[hv]map[string]bool{}, prepares: map[hvh]map[string]bool{}, commits: map[hvh]map[string]bool{},
-		votes: map[hv]map[string]*ref.Vote{}, validated: map[string]bool{}, barePP: map[hvh]bool{}, storedPP: map[hv]string{}, storedP: map[hvh]map[string]bool{}, heldCert: map[uint64]map[uint64]string{}, ignoredNV: map[uint64]uint64{}, electedAt: map[hv]bool{}, sentPP: map[hv]string{}, sentP: map[hv]string{}, sentC: map[hv]string{}, lastVC: map[uint64]int64{},
+		votes: map[hv]map[string]*ref.Vote{}, validated: map[string]bool{}, barePP: map[hvh]bool{}, storedPP: map[hv]string{}, storedP: map[hvh]map[string]bool{}, heldCert: map[uint64]map[uint64]string{}, ignoredNV: map[uint64]uint64{}, electedAt: map[hv]bool{}, sentPP: map[hv]string{}, sentP: map[hv]string{}, sentC: map[hv]string{}, lastVC: map[uint64]uint64{},
 		storedVC: map[hv]map[string]*interfaces.ViewChangeMessage{}, lastCommitH: -1, lastRoundH: -1}
 }
 
@@ -426,8 +426,16 @@ func (m *Monitors) judgeC11(d *deliveryCtx, effects []spi.Event) {
 	case ref.EnvP:
 		if d.pre.V <= msg.V {
 			m.Stats["C11 judged PREPARE"]++
+			if msg.V > d.pre.V {
+				m.Stats["C18 role decisions judged for a view ahead of the receiver"]++
+			}
 			if _, ok := has(effects, n.Id, spi.EvStoreP, msg.H, msg.V, f.From); !ok {
 				m.violate("C11", "honest-prepare-not-counted", "node %s (view %d) did not count PREPARE h=%d v=%d of correct node %s", n.Id, d.pre.V, msg.H, msg.V, f.From)
+				if f.From != c.Leader(msg.V) {
+					// authentic, in committee, right height, view not stale: the only ground left for refusing a PREPARE is the
+					// sender's role, and the sender is not the member at position (view of the PREPARE) mod n
+					m.violate("C18", "non-leader-of-the-view-treated-as-its-leader", "node %s (view %d) refused the PREPARE h=%d v=%d of correct member %s as if it led view %d; position v mod n of that view is %s (position of the node's own view: %s)", n.Id, d.pre.V, msg.H, msg.V, f.From, msg.V, c.Leader(msg.V), c.Leader(d.pre.V))
+				}
 			}
 		} else {
 			m.Stats["C11 P precondition unmet"]++
@@ -834,6 +842,7 @@ func (m *Monitors) onStore(n *Node, nm *nodeMon, e *spi.Event) {
 		hdrRaw, sig, typ, inst, want = h.Raw(), msg.Content().Sender().Signature(), h.MessageType(), uint64(h.InstanceId()), ref.PP
 		if e.Sender != c.Leader(e.V) {
 			bad("preprepare-not-from-leader", "stored a PREPREPARE (h=%d v=%d) from %q who is not the leader", e.H, e.V, e.Sender)
+			m.violate("C18", "proposal-accepted-from-member-at-another-position", "node %s stored the proposal of h=%d v=%d signed by %s; position v mod n is %s", n.Id, e.H, e.V, e.Sender, c.Leader(e.V))
 		}
 		if e.V > 0 {
 			// C07: a proposal of a view above 0 is adopted only on a valid NEW_VIEW
@@ -845,6 +854,7 @@ func (m *Monitors) onStore(n *Node, nm *nodeMon, e *spi.Event) {
 		hdrRaw, sig, typ, inst, want = h.Raw(), msg.Content().Sender().Signature(), h.MessageType(), uint64(h.InstanceId()), ref.P
 		if e.Sender == c.Leader(e.V) {
 			bad("prepare-from-leader", "stored a PREPARE (h=%d v=%d) from the leader %q", e.H, e.V, e.Sender)
+			m.violate("C18", "leader-of-the-view-treated-as-non-leader", "node %s stored a PREPARE of h=%d v=%d from %s, who is at position v mod n of that view", n.Id, e.H, e.V, e.Sender)
 		}
 	case *interfaces.CommitMessage:
 		h := msg.Content().SignedHeader()
@@ -857,6 +867,7 @@ func (m *Monitors) onStore(n *Node, nm *nodeMon, e *spi.Event) {
 		hdrRaw, sig, typ, inst, want = h.Raw(), msg.Content().Sender().Signature(), h.MessageType(), uint64(h.InstanceId()), ref.VC
 		if c.Leader(e.V) != n.Id {
 			bad("view-change-not-addressed-to-me", "stored a VIEW_CHANGE (h=%d v=%d) although leader is %q", e.H, e.V, c.Leader(e.V))
+			m.violate("C18", "votes-collected-by-member-at-another-position", "node %s counted a VIEW_CHANGE for h=%d v=%d; position v mod n is %s", n.Id, e.H, e.V, c.Leader(e.V))
 		}
 		vt := ref.VoteOf(msg.Content())
 		if vt != nil && !ref.ProofValid(w.Keys, c, uint64(spi.InstanceId), e.H, e.V, vt.Proof) {
@@ -991,10 +1002,10 @@ func (m *Monitors) onSendEvent(n *Node, nm *nodeMon, e *spi.Event) {
 		nm.commits[key][n.Id] = true
 	case ref.EnvVC:
 		m.Stats["C10 view changes judged"]++
-		if last, ok := nm.lastVC[msg.H]; ok && int64(msg.V) <= last {
+		if last, ok := nm.lastVC[msg.H]; ok && msg.V <= last {
 			m.violate("C10", "view-change-views-not-increasing", "node %s sent VIEW_CHANGE h=%d v=%d after v=%d", n.Id, msg.H, msg.V, last)
 		}
-		nm.lastVC[msg.H] = int64(msg.V)
+		nm.lastVC[msg.H] = msg.V
 		m.judgeOwnViewChange(n, nm, msg)
 		// C18 by behaviour: the vote of view v goes to the member at position v mod n, and that member collects instead of sending
 		m.Stats["C18 view change destinations judged"]++
@@ -1011,25 +1022,26 @@ func (m *Monitors) onSendEvent(n *Node, nm *nodeMon, e *spi.Event) {
 func (m *Monitors) judgeOwnViewChange(n *Node, nm *nodeMon, msg *ref.Msg) {
 	w := m.w
 	c := w.Comm(msg.H)
-	best := int64(-1)
+	// (views are compared as unsigned 64-bit values: a prepared view may lie anywhere below the vote's view)
+	best, locked := uint64(0), false
 	var bestHash string
 	for k, hash := range nm.sentC {
-		if k.H == msg.H && k.V < msg.V && int64(k.V) > best {
+		if k.H == msg.H && k.V < msg.V && (!locked || k.V > best) {
 			// prepared path only: it held a prepared certificate when it sent that COMMIT
 			key := hvh{k.H, k.V, hash}
 			if nm.proposals[key] && weightOK(c, nm.prepares[key], c.Leader(k.V)) {
-				best, bestHash = int64(k.V), hash
+				best, bestHash, locked = k.V, hash, true
 			}
 		}
 	}
 	// ... or, by its own storage, it held a prepared certificate while it was in that view
 	for v, hash := range nm.heldCert[msg.H] {
-		if v < msg.V && int64(v) > best {
-			best, bestHash = int64(v), hash
+		if v < msg.V && (!locked || v > best) {
+			best, bestHash, locked = v, hash, true
 		}
 	}
 	p := msg.Vote.Proof
-	if best < 0 {
+	if !locked {
 		if p != nil {
 			m.Stats["C09 VC with proof but no observed lock"]++
 		}
@@ -1040,7 +1052,7 @@ func (m *Monitors) judgeOwnViewChange(n *Node, nm *nodeMon, msg *ref.Msg) {
 		m.violate("C09", "view-change-lacks-proof", "node %s prepared in view %d but its VIEW_CHANGE h=%d v=%d carries no proof", n.Id, best, msg.H, msg.V)
 		return
 	}
-	if p.PPRef == nil || int64(p.PPRef.V) != best || string(p.PPRef.Hash) != bestHash {
+	if p.PPRef == nil || p.PPRef.V != best || string(p.PPRef.Hash) != bestHash {
 		m.violate("C09", "view-change-proof-not-highest-prepared", "node %s VIEW_CHANGE h=%d v=%d carries a proof that is not for its highest prepared view %d", n.Id, msg.H, msg.V, best)
 	}
 	if !ref.ProofValid(w.Keys, c, uint64(spi.InstanceId), msg.H, msg.V, p) {
@@ -1097,14 +1109,14 @@ func (m *Monitors) judgeOwnNewView(n *Node, nm *nodeMon, msg *ref.Msg) {
 		m.violate("C07", "leader-proposed-without-quorum-of-votes", "node %s sent NEW_VIEW h=%d v=%d without authentic votes of quorum weight", n.Id, msg.H, msg.V)
 	}
 	// proposal = block of highest-view proof among the votes; fresh only if none carries a proof
-	bestV := int64(-1)
+	bestV, anyProof := uint64(0), false
 	var bestHash []byte
 	for _, vt := range emb {
-		if vt.Proof != nil && vt.Proof.PPRef != nil && int64(vt.Proof.PPRef.V) > bestV {
-			bestV, bestHash = int64(vt.Proof.PPRef.V), vt.Proof.PPRef.Hash
+		if vt.Proof != nil && vt.Proof.PPRef != nil && (!anyProof || vt.Proof.PPRef.V > bestV) {
+			bestV, bestHash, anyProof = vt.Proof.PPRef.V, vt.Proof.PPRef.Hash, true
 		}
 	}
-	if bestV >= 0 {
+	if anyProof {
 		m.Stats["C09 new views re-proposing a lock"]++
 		if !bytes.Equal(bestHash, msg.Hash) {
 			if m.minted[string(msg.Hash)] {
